@@ -116,7 +116,7 @@ def run(ctx):
     for j in range(80 if quick else 800):
         N = rng.choice([1, 2, 3, 5, 6, 8, 11, 16, 33])
         alpha = rng.choice([0.3, 0.6, 1.0])
-        beta = rng.choice([0.4, 0.7, 1.0])
+        beta = rng.choice([0.4, 0.7, 1.0, 0.0])        # 0.0: the lower end of the range, every weight is 1
         ops = []
         size = 0
         for _ in range(rng.randint(4, 30)):
